@@ -15,7 +15,7 @@ PID = "C20"
 TRANSLATE = True
 TRANSLATE_ALGO = ["AlgoTraverse", "AlgoTravFront", "AlgoRaster", "AlgoImgIo", "AlgoImgIo2"]   # harness/algo_specs/18_raster.py: image_stack.py::_tp3f, ToImageStack._get_samplers / _get_scene (+ leave) / transform; 18b_imgio.py: images/io.py::read_imgs, save_tiff, TiffImageStack / NDArrayImageStack.__init__, __getitem__, get_full
 DRIVER_FILES = ["SwcVerif/Model/AlgoRunRaster.lean", "SwcVerif/Model/PyRaster.lean", "SwcVerif/Model/AlgoRunImgIo.lean", "SwcVerif/Model/PyImgIo.lean",
-                "SwcVerif/Model/AlgoRunImgIo2.lean", "SwcVerif/Model/PyImgIo2.lean"]
+                "SwcVerif/Model/AlgoRunImgIo2.lean", "SwcVerif/Model/PyImgIo2.lean", "SwcVerif/Model/PyViews.lean"]
 LEAN_MODS = ["SwcVerif.Props.C20", "SwcVerif.Props.C20Gen", "SwcVerif.Props.C20Io", "SwcVerif.Props.C20Io2"]
 THEOREMS = [
     "C20.consts_pinned", "C20.save_puts_z_first", "C20.axes_roundtrip", "C20.axes_roundtrip_3d", "C20.unknown_axis", "C20.rescale_table",
@@ -41,6 +41,10 @@ THEOREMS = [
     "RefineImgIo2.gray_get_full_eq", "RefineImgIo2.gray_spec", "RefineImgIo2.frameOpt_spec", "RefineImgIo2.transform_nd_refines",
     "RefineImgIo2.transform_nd_eq_transform", "RefineImgIo2.gray_getitem_never_returns", "RefineImgIo2.gray_init_eq",
     "RefineImgIo2.tostack_init_scalar_eq", "RefineImgIo2.tostack_init_array_eq",
+    "RefineImgIo2.ndarray_getitem_int_eq", "RefineImgIo2.ndarray_getitem_int2_eq", "RefineImgIo2.ndarray_getitem_int3_eq",
+    "RefineImgIo2.ndarray_getitem_slice_eq", "RefineImgIo2.ndarray_getitem_slice2_eq", "RefineImgIo2.ndarray_getitem_slice3_eq",
+    "RefineImgIo2.ndarray_getitem_slice4_eq", "RefineImgIo2.getitem_int_spec", "RefineImgIo2.getitem_int_out_of_range",
+    "RefineImgIo2.getitem_full_slices",
     "C20.generated_call_layout", "C20.generated_call_empty", "C20.generated_save_tif_writes", "C20.generated_raster_file_roundtrip",
     "C20.generated_raster_file_single_plane", "C20.generated_raster_file_empty", "C20.generated_codec_inits", "C20.generated_get_full",
     "C20.generated_call_every_tree",
@@ -1248,7 +1252,7 @@ class ImgIo2Gen(Suite):
     stand-in, and a real rasterisation whose sampler answers are recorded and handed to the generated `transform`"""
     name = "c20.imgio2-gen"
     case_timeout = 60
-    OPS = ["call", "savew", "saveio", "nrrd", "v3d", "v3draw", "v3dpbd", "full", "gray", "frame", "grayget", "init"]
+    OPS = ["call", "savew", "saveio", "nrrd", "v3d", "v3draw", "v3dpbd", "full", "gray", "frame", "grayget", "init", "getk", "gets"]
 
     def cases(self, rng, tier, widen):
         n = 60 if tier == "thorough" or widen else 24
@@ -1267,6 +1271,15 @@ class ImgIo2Gen(Suite):
             elif op == "init":
                 q = lambda: rng.choice([1, 2, 3, 0.5, 0.75, 1.25, 4])
                 c["res"] = q() if rng.random() < 0.4 else [q() for _ in range(rng.choice([3, 3, 3, 1, 2, 4, 0]))]
+            elif op in ("getk", "gets"):
+                rank = rng.choice([4, 4, 3, 2])
+                c.update(kind=rng.choice(["u8", "f32"]), shape=[rng.randint(1, 4) for _ in range(rank)])
+                k = rng.randint(1, min(rank, 3 if op == "getk" else 4) + (1 if rng.random() < 0.1 and rank < (3 if op == "getk" else 4) else 0))
+                if op == "getk":
+                    c["key"] = [rng.randint(-d - 1, d) for d in (c["shape"] + [2])[:k]]
+                else:
+                    q = lambda d: rng.choice([None, None, rng.randint(-d - 2, d + 2)])
+                    c["key"] = [[q(d), q(d), rng.choice([None, None, 1, 2, -1, -2, 3, -3, 0] if rng.random() < 0.7 else [None])] for d in (c["shape"] + [2])[:k]]
             elif op == "grayget":
                 c.update(kind=rng.choice(["u8", "f32"]), shape=[rng.randint(1, 3) for _ in range(3)] + [1])
                 c["key"] = [rng.randint(-d - 1, d) for d in c["shape"][:3]]
@@ -1363,6 +1376,11 @@ class ImgIo2Gen(Suite):
                     st = io.NDArrayImageStack.__new__(io.NDArrayImageStack)
                     st.imgs = a.copy()                       # any rank: what `self[:, :, :, :]` does to the array
                     return {"arr": _arr_text(io.ImageStack.get_full(st))}
+                if op in ("getk", "gets"):
+                    st = io.NDArrayImageStack.__new__(io.NDArrayImageStack)
+                    st.imgs = a.copy()
+                    key = tuple(case["key"]) if op == "getk" else tuple(slice(*x) for x in case["key"])
+                    return {"arr": _arr_text(st[key[0] if len(key) == 1 else key])}
                 if op == "grayget":
                     try:
                         v = io.GrayImageStack(io.NDArrayImageStack(a.copy()))[tuple(case["key"])]
@@ -1431,6 +1449,12 @@ class ImgIo2Gen(Suite):
             wtxt = ",".join(["0"] * res["warnings"])
             return [(f"gsavetifio {base} rd={rd}", lambda o, want=res["arr"], exact=exact, wtxt=wtxt: len(o.split(";")) == 2 and o.split(";")[0] == wtxt
                      and _same_arr(o.split(";")[1], want, exact))]
+        if op == "getk":
+            # as many ints as axes: the element, shown as a 0-d array (empty shape)
+            return [(f"ggetk {base} ints={gen.ints(case['key'])}", "E" if "exc" in res else (res["arr"][1:] if res["arr"].startswith("_|") else res["arr"]))]
+        if op == "gets":
+            sl = "/".join(":".join("n" if v is None else str(v) for v in x) for x in case["key"])
+            return [(f"ggets {base} sl={sl}", "E" if "exc" in res else res["arr"])]
         if op == "grayget":
             # the method calls itself: no result at any recursion depth (a value returned by the real method disagrees with `E`)
             return [(f"ggrayget {base} key={gen.ints(case['key'])} fuel={n}", "E" if "exc" in res else res["arr"]) for n in (1, 50)]
